@@ -401,12 +401,31 @@ def rtWith (viaParse : Bool) : Handler := fun args impl => rtFrom viaParse (valu
     then round-trip like any other value (encode, parse again, encode: same bytes, same size) -/
 def rtw : Handler := fun args impl =>
   match args with
-  | [hx, ln] =>
+  | hx :: ln :: rest =>
     match mkSlice hx ln with
     | some s =>
       (match parse (s.len + 1) s with
        | .ok .nil => { model := "pnil0" }
-       | .ok v => rtFrom true (.ok v) impl
+       | .ok v =>
+         let r := rtFrom true (.ok v) impl
+         -- the first re-encoding of the parsed frame
+         let b1 := (impl.splitOn " | ").head?.getD ""
+         let wire := toHex (s.buf.take s.len)
+         let extra : List (String × String) :=
+           -- (a) a conformant frame parsed and encoded again is the frame itself (flag "w": no known exception applies)
+           (if rest = ["w"] ∧ b1 ≠ wire ∧ b1 ≠ "err1" then
+              [("C05", s!"parsed {v.kind} re-encodes to {b1.take 120}, the frame was {wire.take 120}")] else []) ++
+           -- (b) whatever the library encodes must follow the wire grammar (kinds the walker knows)
+           (match (if rest = ["w"] then ofHex b1 else none) with
+            | some bs =>
+              (match Spec.walk bs with
+               | .error e =>
+                 if (e.splitOn "not controller-originated").length > 1 ∨ (e.splitOn "experimenter").length > 1 ∨
+                    (e.splitOn "nicira message type").length > 1 ∨ (e.splitOn "onf message type").length > 1 then []
+                 else [("C02", s!"re-encoding of a parsed {v.kind} does not follow the wire grammar: {e}")]
+               | .ok _ => [])
+            | none => [])
+         { r with more := r.more ++ extra }
        | .err => { model := "perr0" }
        | .panic => { model := "panic" }
        | .spin => { model := "spin" })
